@@ -7,9 +7,10 @@ CONSTANTS
     CapAtBlobSize = TRUE
     BgAllFiles = TRUE
     WaitHonoursTimeout = TRUE
+    ThresholdOnEffective = TRUE
     AllowReg = TRUE
 INIT Init
 NEXT Next
 VIEW core
-INVARIANTS AfterPrefetchPrioritizedReadsAreLocal NoPrefetchLandmarkNoTraffic ConfiguredSizeCapped PrefetchTrafficConfined AfterBackgroundFetchOfflineReadable WaiterClosedAtEnd WaitResult WaitNeverStuck TypeOK OnceRunsOnce
+INVARIANTS AfterPrefetchPrioritizedReadsAreLocal NoPrefetchLandmarkNoTraffic ConfiguredSizeCapped PrefetchTrafficConfined AfterBackgroundFetchOfflineReadable WaiterClosedAtEnd WaitNilOnlyIfEndedOrAsync WaitResult WaitNeverStuck TypeOK OnceRunsOnce
 CHECK_DEADLOCK FALSE
